@@ -633,7 +633,18 @@ func (f *Frame) instr(in ssa.Instruction) {
 				f.havocVal(in, "bitwise complement in mode int")
 			}
 		case token.ARROW:
+			// other goroutines run while this one blocks: everything may change except what only this goroutine
+			// can change (which locks it holds)
+			keep := map[string]string{}
+			for k, v := range f.st.h {
+				if strings.HasPrefix(k, "GH_lock_") {
+					keep[k] = v
+				}
+			}
 			e.fullHavoc(f.st, "channel receive in "+f.fn.Name())
+			for k, v := range keep {
+				f.st.h[k] = v
+			}
 			if tup, ok := in.Type().(*types.Tuple); ok {
 				var rs []string
 				for i := 0; i < tup.Len(); i++ {
@@ -649,6 +660,7 @@ func (f *Frame) instr(in ssa.Instruction) {
 	case *ssa.BinOp:
 		f.binop(in)
 	case *ssa.Store:
+		f.storeGuard(in.Addr, f.val(in.Val), in)
 		p := f.placeOf(in.Addr)
 		if p.kind == "structref" || p.kind == "cell" {
 			f.safety("nil", fmt.Sprintf("(not (= %s 0))", p.ref), in)
@@ -1486,4 +1498,42 @@ func (f *Frame) fieldGuardCheck(in ssa.Instruction) {
 	e.safetyOrd["guard."+key]++
 	o := e.oblige("guard", fmt.Sprintf("%s#guard[%s#%d]", e.unit.Key(), key, e.safetyOrd["guard."+key]), "guard", f.reach, goal, e.P.pos(in.Pos()))
 	o.Output = fmt.Sprintf("field %s is accessed (%s) without holding the object's %s", fname, map[string]string{"r": "read", "w": "write"}[kind], lockField)
+}
+
+// storeGuard: obligations of the unit's storeguard clauses for a store through addr (a FieldAddr of the named field).
+func (f *Frame) storeGuard(addr ssa.Value, val string, in ssa.Instruction) {
+	e := f.e
+	if len(e.unit.StoreGuards) == 0 {
+		return
+	}
+	fa, ok := addr.(*ssa.FieldAddr)
+	if !ok {
+		return
+	}
+	st := fa.X.Type().Underlying().(*types.Pointer).Elem()
+	named, ok := st.(*types.Named)
+	if !ok {
+		return
+	}
+	key := named.Obj().Name() + "." + st.Underlying().(*types.Struct).Field(fa.Field).Name()
+	for _, sg := range e.unit.StoreGuards {
+		if sg.Raw != key {
+			continue
+		}
+		vars := map[string]CVal{}
+		for k, pv := range f.params {
+			vars[k] = pv
+		}
+		vars["value"] = CVal{S: val, T: st.Underlying().(*types.Struct).Field(fa.Field).Type()}
+		errs := []string{}
+		env := &CEnv{e: e, vars: vars, st: f.st, old: f.entrySt, pkg: f.fn.Pkg.Pkg, frame: f, at: in.Block(), lets: e.unit.Lets, errs: &errs}
+		goal := env.evalBool(sg.Expr)
+		f.reportEnvErrs(env, sg)
+		lab := sg.Label
+		if lab == "" {
+			lab = "g"
+		}
+		e.safetyOrd["store."+key]++
+		e.oblige("guard", fmt.Sprintf("%s#guard[store.%s#%d.%s]", e.unit.Key(), key, e.safetyOrd["store."+key], lab), lab, f.reach, goal, e.P.pos(in.Pos()))
+	}
 }
